@@ -118,7 +118,8 @@ Example C04_history_runs :
   srun [] ops = [OUnit; OUnit; OVal 1; OUnit; OUnit; OUnit; OList [3; 2]; OVal 3; OVal 2; OUnit; OInt 0].
 Proof. split; [apply Z.leb_le; vm_compute; reflexivity|]. vm_compute. split; reflexivity. Qed.
 
-(* non-vacuity for the allocation failure: front <> 0 and the live window wraps around the end of
+(* (explicit constants 16 and 2: the example must not depend on the shipped ones)
+   non-vacuity for the allocation failure: front <> 0 and the live window wraps around the end of
    the buffer; Grow(max int64), Grow(max int64 - 16) (the sum does not wrap: 2^63-1 elements) and
    Grow(2^62-1) panic; Item / Iterate / Pop still return the right elements, and the raw state
    (nil?, cap, front, back, slots) and the generation are the ones before the calls *)
@@ -127,13 +128,13 @@ Example C04_grow_alloc_failure_runs :
   let grows := [OpGrow 9223372036854775807; OpGrow 9223372036854775791; OpGrow 4611686018427387903] in
   let post := [OpItem 0; OpItem 4; OpIterate; OpLen; OpPopFront; OpPopBack; OpGrow 3; OpIterate] in
   let ops := pre ++ grows ++ post in
-  let d := sd (run_state 0 deque_minSize deque_growMul st0 pre) in
-  let d' := sd (run_state 0 deque_minSize deque_growMul st0 (pre ++ grows)) in
-  in_budget deque_minSize deque_growMul ops /\
-  forallb (fun o => alloc_fails deque_minSize deque_growMul d o) grows = true /\
+  let d := sd (run_state 0 16 2 st0 pre) in
+  let d' := sd (run_state 0 16 2 st0 (pre ++ grows)) in
+  in_budget 16 2 ops /\
+  forallb (fun o => alloc_fails 16 2 d o) grows = true /\
   (front d, back d, cap d) = (14, 2, 16) /\
   raw d' = raw d /\ gen d' = gen d /\
-  run 0 deque_minSize deque_growMul st0 ops = srun [] ops /\
+  run 0 16 2 st0 ops = srun [] ops /\
   srun [] ops = [OUnit; OUnit; OUnit; OVal 1; OUnit; OUnit; OUnit;
                  OPanic; OPanic; OPanic;
                  OVal 6; OVal 3; OList [6; 5; 4; 2; 3]; OInt 5; OVal 6; OVal 3; OUnit; OList [5; 4; 2]].
